@@ -365,6 +365,38 @@ func (m *machine) eqTerm(fr *frame, t types.Type, x, y value) *term {
 		m.havocs++
 		return m.fresh("fhavoc", 0)
 	}
+	if b := basicOf(t); b != nil && b.Info()&types.IsFloat != 0 && (isSym(x) || isSym(y)) {
+		// exact IEEE-754 equality on symbolic bit patterns (values built by Float32/64frombits):
+		// neither operand is a NaN, and the patterns are equal or both are zeros of either sign
+		w := 64
+		if b.Kind() == types.Float32 {
+			w = 32
+		}
+		bits := func(v value) *term {
+			switch v := v.(type) {
+			case *sym:
+				if v.t.w == w {
+					return v.t
+				}
+			case float64:
+				if w == 32 {
+					return f.bv(uint64(math.Float32bits(float32(v))), 32)
+				}
+				return f.bv(math.Float64bits(v), 64)
+			}
+			panic(unsupported("float comparison with symbolic bits of another width"))
+		}
+		xt, yt := bits(x), bits(y)
+		var expMask, fracMask, absMask uint64 = 0x7ff0000000000000, 0x000fffffffffffff, 0x7fffffffffffffff
+		if w == 32 {
+			expMask, fracMask, absMask = 0x7f800000, 0x007fffff, 0x7fffffff
+		}
+		isNaN := func(t *term) *term {
+			return f.and(f.eq(f.bin("bvand", t, f.bv(expMask, w)), f.bv(expMask, w)), f.not(f.eq(f.bin("bvand", t, f.bv(fracMask, w)), f.bv(0, w))))
+		}
+		bothZero := f.eq(f.bin("bvand", f.bin("bvor", xt, yt), f.bv(absMask, w)), f.bv(0, w))
+		return f.and(f.and(f.not(isNaN(xt)), f.not(isNaN(yt))), f.or(bothZero, f.eq(xt, yt)))
+	}
 	switch xv := x.(type) {
 	case bool:
 		if yv, ok := y.(bool); ok {
